@@ -170,7 +170,10 @@ Ltac proj_state :=
   unfold gth, inflight, all_entries; cbn [to_state persisted v_iks v_refs v_revs v_uid v_batch v_pending inflight all_entries gth threads];
   rewrite ?e2_unlock_gtl, ?e2_unlock_persisted, ?e2_unlock_pending, ?e2_unlock_batch, ?e2_unlock_iks,
           ?e2_unlock_refs, ?e2_unlock_revs, ?e2_unlock_uid;
-  cbn [finish set_th release_ik of_state u_persisted u_pending u_batch u_iks u_refs u_revs u_uid u_threads].
+  cbn [finish set_th release_ik dequeue of_state u_persisted u_pending u_batch u_iks u_refs u_revs u_uid u_threads];
+  rewrite ?e2_unlock_persisted, ?e2_unlock_pending, ?e2_unlock_batch, ?e2_unlock_iks,
+          ?e2_unlock_refs, ?e2_unlock_revs, ?e2_unlock_uid;
+  cbn [of_state u_persisted u_pending u_batch u_iks u_refs u_revs u_uid u_threads].
 
 
 Ltac tx_contra H1 :=
@@ -273,7 +276,7 @@ Ltac e2_leaves H Hpc :=
   inversion H; subst; clear H.
 Ltac e2_close th Hpc :=
   split;
-       [ intros t'; proj_state; rewrite e2_gtl_set; reflexivity | ];
+       [ intros t'; proj_state; rewrite e2_gtl_set; rewrite ?e2_unlock_gtl; reflexivity | ];
   let HTL := fresh "HTL" in
   intros HTL; unfold TL in HTL; cbn [ug t_pc t_req t_entry t_resp t_txid t_view t_unb t_postings] in HTL;
   rewrite Hpc in HTL;
@@ -307,9 +310,41 @@ Proof.
   all: e2_close th Hpc.
 Qed.
 
+(* the ctx.Done() branch of the wait for the account locks: same abstract effect as the other error exits that
+   release what the request took itself ([PRefLookup true]); the lock table / queue are outside [eff] *)
+Lemma e2_resume_cancelled_eff : forall s t s', resume_cancelled s t = Some s' ->
+  exists th th', get_thread (threads s) t = Some th /\
+    (forall t', gth s' t' = if Nat.eqb t' t then Some (ug th') else gth s t') /\
+    (TL t (ug th) -> eff s s' t (ug th) (ug th')).
+Proof.
+  intros s t s' H. unfold resume_cancelled in H.
+  destruct (get_thread (threads s) t) as [th|] eqn:Hth; [|discriminate].
+  destruct (negb (Nat.eqb (t_gen th) (gen s))) eqn:Hgen; [discriminate|].
+  exists th.
+  destruct (t_pc th) eqn:Hpc; try discriminate H.
+  destruct (t_cancelled th) eqn:Hc; [|discriminate H].
+  cbv zeta in H. destruct (t_granted th) eqn:Hgr; inversion H; subst; clear H.
+  all: eexists; split; [reflexivity|].
+  all: e2_close th Hpc.
+Qed.
+
+(* cancelling a context changes nothing of what the invariants read *)
+Lemma e2_cancel_frame : forall s t s', cancel s t = Some s' ->
+  (forall t', gth s' t' = gth s t') /\ persisted s' = persisted s /\ inflight s' = inflight s /\
+  v_uid s' = v_uid s /\ v_iks s' = v_iks s /\ v_refs s' = v_refs s /\ v_revs s' = v_revs s.
+Proof.
+  intros s t s' H. unfold cancel in H.
+  destruct (get_thread (threads s) t) as [th|] eqn:Hth; [|discriminate].
+  destruct (negb (Nat.eqb (t_gen th) (gen s))); [discriminate|].
+  destruct (pc_finished (t_pc th)); [discriminate|]. inversion H; subst; clear H.
+  split; [|repeat split; reflexivity].
+  intros t'. unfold gth. cbn [to_state threads set_th of_state u_threads].
+  exact (e2_gtl_set_same _ _ _ _ Hth (e2_ug_with_cancelled th) t').
+Qed.
+
 Definition init_thread (g : nat) (rq : request) : thread :=
   {| t_req := rq; t_pc := PStart; t_postings := rq_postings rq; t_unb := rq_unb rq; t_view := [];
-     t_entry := None; t_txid := None; t_granted := false; t_resp := None; t_gen := g |}.
+     t_entry := None; t_txid := None; t_granted := false; t_resp := None; t_gen := g; t_cancelled := false |}.
 
 Lemma e2_TL_init : forall t g rq, TL t (ug (init_thread g rq)).
 Proof.
@@ -325,7 +360,7 @@ Proof.
   destruct (get_thread (threads s) t) as [|] eqn:Hth; [discriminate|]. split; [reflexivity|].
   pose proof (e2_TL_init t (gen s) rq) as HT.
   change {| t_req := rq; t_pc := PStart; t_postings := rq_postings rq; t_unb := rq_unb rq; t_view := [];
-            t_entry := None; t_txid := None; t_granted := false; t_resp := None; t_gen := gen s |}
+            t_entry := None; t_txid := None; t_granted := false; t_resp := None; t_gen := gen s; t_cancelled := false |}
     with (init_thread (gen s) rq) in H.
   assert (Hpc : t_pc (init_thread (gen s) rq) = PStart) by reflexivity.
   assert (Hrq : t_req (init_thread (gen s) rq) = rq) by reflexivity.
